@@ -776,8 +776,9 @@ def _record_position(source, event):
     except Exception:
         return None
     classes = {t[1] for t in found if t[0] == 'inst'}
-    if len(classes) != 1 or len(found) != 1:
-        return None
+    rest = [t for t in found if t[0] not in ('inst', 'none')]
+    if len(classes) != 1 or rest:
+        return None  # (an optional record still is that record where a field is read)
     fields = record_fields(program, next(iter(classes)))
     names = [n for n, _d in fields] if fields else []
     return names.index(source.attr) if source.attr in names else None
